@@ -8,6 +8,10 @@ Bounded-exhaustive exploration with an exception-type oracle (the only model nee
   generated      the C07 custom-pattern set (<= k fields, every width, five delimiter styles, embedded patterns)
   builtin        every built-in pattern and every standard single-letter pattern (several cultures)
   templates      era / calendar / year-of-era patterns under every template calendar (with_calendar)
+  ill-formed     embedded ld<>/lt<>/l<> patterns combined with an individual field of the same kind before / after the
+                 embedding, embedded twice, every pair of width variants of one field: creation must raise
+                 InvalidPatternError, or - if accepted - parsing of the formatted grid and of every re-splicing of its
+                 halves must not raise
   extreme-templates  generated patterns under with_template_value for extreme templates (day 31 / 30 / leap day, last
                  day of a leap year and of the last year of every calendar, range ends, 23:59:59.999999999), fed texts
                  that vary every PRESENT field over its whole range (every month, every day, leap and non-leap years)
@@ -520,6 +524,57 @@ def extreme_worker(task):
 
 
 # ---------------------------------------------------------------------------------------------------------------
+# ill-formed composites: embedded pattern + individual field of the same kind, repeated fields
+# ---------------------------------------------------------------------------------------------------------------
+
+def illformed_worker(task):
+    kind, lo, hi = task
+    acc = Acc()
+    items = list(G.illformed_composites(kind))[lo:hi]
+    for text, family in items:
+        acc.count(states=1)
+        pat = try_create(acc, kind, text, "")
+        if pat is None:
+            continue
+        acc.outcome("ill-formed composite accepted (%s)" % family)
+        # the tree accepts it: parsing must still never raise.  Texts: formatted grid values, and every re-splicing of
+        # their two halves at the '~' joint, so the duplicated field takes every other value of its range.
+        values = field_grid(kind) if kind in ("annual", "time", "date", "datetime", "instant") else probe_values(kind, False)
+        lefts, rights, whole = [], [], []
+        for lv in values:
+            try:
+                t = pat.format(lv)
+            except Exception as e:  # noqa: BLE001
+                if exc_origin(e) == "harness":
+                    raise
+                continue
+            if t not in whole:
+                whole.append(t)
+            if t.count("~") == 1:
+                a, b = t.split("~")
+                if a not in lefts:
+                    lefts.append(a)
+                if b not in rights:
+                    rights.append(b)
+        info = {"kind": kind, "pattern": text, "culture": "", "family": family}
+        n = 0
+        seen = set()
+        for t in whole[:200]:
+            seen.add(t)
+            check_parse(acc, kind, pat, t, info, n < 2)
+            n += 1
+        for a in lefts[:60]:
+            for b in rights[:60]:
+                t = a + "~" + b
+                if t not in seen:
+                    seen.add(t)
+                    check_parse(acc, kind, pat, t, info, False)
+        for t in G.hostile_texts():
+            check_parse(acc, kind, pat, t, info, False)
+    return acc
+
+
+# ---------------------------------------------------------------------------------------------------------------
 # driver
 # ---------------------------------------------------------------------------------------------------------------
 
@@ -572,6 +627,14 @@ def run(ctx):
             ctx.merge_part("extreme-templates", acc)
         ctx.cap("extreme templates: generated patterns with the quoted delimiter / fixed / composite shapes only; non-ISO calendar templates for LocalDate patterns%s" % (
             " and LocalDateTime (Hebrew Civil, Coptic)" if tier == "thorough" else ""))
+    if not only or "ill-formed" in only:
+        tasks = []
+        for kind in kinds:
+            n = sum(1 for _ in G.illformed_composites(kind))
+            for lo in range(0, n, 150):
+                tasks.append((kind, lo, min(n, lo + 150)))
+        for acc in pmap(illformed_worker, rot(tasks)):
+            ctx.merge_part("ill-formed", acc)
     if not only or "create-short" in only:
         n = G.count_strings(G.SIGMA, 3)
         tasks = []
